@@ -12,8 +12,9 @@
    {1000, 5000} where the K = 5000 bound is not already implied at K = 100 + a seeded sample; epsilon = 0),
    CAGrad(c in {1, 1.5, 3}); the inequality of the statement is evaluated with the code's own weights, the
    specification's exact minnorm^2 and s^2 <= L+1; float32 (thorough) and CAGrad at predicate level.
-3. C -> S: F2 episodes validated by TraceDualCone: the logged weights must be the KKT point, which
-   entails the cone constraint (A w)_i >= 0, i.e. (G w)_i >= -reg_eps s^2 w_i.
+3. C -> S: F2 episodes validated by TraceDualCone (the cone constraint ((qG + p s^2 I) w)_i >= 0 of the logged
+   weights, exactly); MGDA episodes on random integer matrices (entries -4..4, all budgets up to 5000) validated by
+   TraceMinNorm (exact minnorm^2 and s^2 bracket; rate, entry allowance, hull membership).
 """
 
 from __future__ import annotations
@@ -25,7 +26,7 @@ import torch
 
 from ..core import Ctx, MachineryError
 from ..dualcone_replay import eval_c04, work_c04, work_c04_big
-from ..dualcone_trace import exact_episodes, validate_exact
+from ..dualcone_trace import exact_episodes, mgda_episode, mgda_episodes, validate_exact, validate_mgda
 from ..par import pmap
 from ..tlc import run_tlc
 from .c03 import model_check
@@ -56,6 +57,8 @@ def run(ctx: Ctx, replay: str | None) -> None:
             for key, what in eval_c04(p["case"]):
                 if key != "__gap__":
                     ctx.violation(key, what, p)
+        elif p["kind"] == "mgda_trace":
+            validate_mgda(ctx, [mgda_episode((p["J"], p["K"], 1))])
         else:
             validate_exact(ctx, [p["episode"] | {"ep": 1}], PID)
         return
@@ -120,5 +123,12 @@ def run(ctx: Ctx, replay: str | None) -> None:
     ctx.extra["trace_summary"] = validate_exact(ctx, eps, PID)
     for e in eps[:2]:
         ctx.sample({"episode": {k: e[k] for k in ("J", "e", "a", "reg", "u", "agg", "w")}})
+    # C -> S for MGDA: random integer matrices (entries -4..4, imbalanced / nearly antiparallel / generic), every budget;
+    # TLC (TraceMinNorm) computes minnorm^2 and the bracket of s^2 exactly and judges the logged |A|^2 and J.A
+    jobs = mgda_episodes(rng, 400 if ctx.tier == "quick" else 3000)
+    meps = pmap(mgda_episode, jobs, chunksize=4)
+    ctx.evaluations += len(meps)
+    ctx.extra["mgda_trace_summary"] = validate_mgda(ctx, meps)
+    ctx.sample({"mgda_episode": {k: meps[0][k] for k in ("J", "K", "a2lo", "a2hi", "phi")}})
     ctx.note("predicate level only (DESIGN 8): CAGrad (J.A >= -1e-6 s |A|), MGDA budgets > 2 (float64 with exact minnorm^2), "
              "float32 runs; UPGrad/DualProj/MGDA(K<=2) inequalities are exact in the model")
